@@ -214,7 +214,8 @@ Theorem recv_frame_local e f o u k : WF e -> CWF (cachek e) -> k <> fsid f ->
   let '(e', effs) := recv_frame e f o u in
   tget (table e') k = tget (table e) k /\ cache_get (cachek e') k = cache_get (cachek e) k /\ enq_on (fsid f) effs.
 Proof.
-  intros W CW Hk. unfold recv_frame. destruct (is_fragmentable f) eqn:Ef; [|apply recv_dispatch_local; assumption].
+  intros W CW Hk. unfold recv_frame. destruct (stray_fragment e f); [repeat split; constructor|].
+  destruct (is_fragmentable f) eqn:Ef; [|apply recv_dispatch_local; assumption].
   pose proof (cache_append_local (cachek e) f k Hk) as Hc.
   pose proof (cache_append_spec (cachek e) f CW) as [_ Hs].
   destruct (cache_append (cachek e) f) as [c' a] eqn:Ea. cbn [fst snd] in Hc, Hs.
@@ -235,6 +236,7 @@ Theorem duplicate_request_rejected e f o u oid :
   recv_frame e f o u = (e, [XEnq (f_error (fsid f) EC_REJECTED [])]).
 Proof.
   intros Hr Hf Hc Ht. unfold recv_frame.
+  assert (stray_fragment e f = false) as -> by (destruct f; try discriminate Hr; reflexivity).
   assert (is_fragmentable f = true) as -> by (destruct f; try discriminate Hr; reflexivity).
   unfold cache_append. rewrite Hf, Hc.
   assert ({| sc := sc e; table := table e; objs := objs e; cachek := cachek e |} = e) as -> by (destruct e; reflexivity).
@@ -388,7 +390,7 @@ Qed.
 
 Lemma inv_recv_frame e f o u : Inv e -> Inv (fst (recv_frame e f o u)).
 Proof.
-  intro I. unfold recv_frame. destruct (is_fragmentable f); [|apply inv_recv_dispatch; exact I].
+  intro I. unfold recv_frame. destruct (stray_fragment e f); [exact I|]. destruct (is_fragmentable f); [|apply inv_recv_dispatch; exact I].
   pose proof (cache_append_spec (cachek e) f (inv_cwf e I)) as [Hc _].
   destruct (cache_append (cachek e) f) as [c' a]. cbn [fst] in Hc.
   assert (Inv {| sc := sc e; table := table e; objs := objs e; cachek := c' |}) as I1
@@ -473,7 +475,8 @@ Theorem fresh_request_served e sid ign md d :
   recv_frame e (FRequestResponse sid ign false md d) OFuture true =
     (register_obj e sid (mk_obj KRRResp sid), [XHandler HResponse md d]).
 Proof.
-  intros Ht Hc Hs. unfold recv_frame. change (is_fragmentable (FRequestResponse sid ign false md d)) with true. cbv iota.
+  intros Ht Hc Hs. unfold recv_frame. change (stray_fragment e (FRequestResponse sid ign false md d)) with false.
+  change (is_fragmentable (FRequestResponse sid ign false md d)) with true. cbv iota.
   unfold cache_append. cbn [ffollows fsid]. rewrite Hc.
   assert ({| sc := sc e; table := table e; objs := objs e; cachek := cachek e |} = e) as -> by (destruct e; reflexivity).
   unfold recv_dispatch. cbn [fsid default_outcome]. change (is_request_type (FRequestResponse sid ign false md d)) with true.
@@ -686,7 +689,8 @@ Theorem raising_handler_contained e sid ign md d :
   recv_frame e (FRequestResponse sid ign false md d) ORaise true =
     (e, [XHandler HResponse md d; XEnq (f_error sid EC_APPLICATION_ERROR [])]).
 Proof.
-  intros Ht Hc. unfold recv_frame. change (is_fragmentable (FRequestResponse sid ign false md d)) with true. cbv iota.
+  intros Ht Hc. unfold recv_frame. change (stray_fragment e (FRequestResponse sid ign false md d)) with false.
+  change (is_fragmentable (FRequestResponse sid ign false md d)) with true. cbv iota.
   unfold cache_append. cbn [ffollows fsid]. rewrite Hc.
   assert ({| sc := sc e; table := table e; objs := objs e; cachek := cachek e |} = e) as -> by (destruct e; reflexivity).
   unfold recv_dispatch. cbn [fsid default_outcome]. change (is_request_type (FRequestResponse sid ign false md d)) with true.
@@ -696,7 +700,9 @@ Qed.
 Theorem unknown_stream_dropped e f o u : is_fragmentable f = false -> is_request_type f = false ->
   fsid f <> CONNECTION_STREAM_ID -> tget (table e) (fsid f) = None -> recv_frame e f o u = (e, []).
 Proof.
-  intros Hf Hr Hs Ht. unfold recv_frame. rewrite Hf. unfold recv_dispatch. rewrite Hr, orb_false_r.
+  intros Hf Hr Hs Ht. unfold recv_frame.
+  assert (stray_fragment e f = false) as -> by (destruct f; try discriminate Hf; reflexivity).
+  rewrite Hf. unfold recv_dispatch. rewrite Hr, orb_false_r.
   destruct (N.eqb_spec (fsid f) CONNECTION_STREAM_ID); [congruence|]. rewrite Ht. reflexivity.
 Qed.
 
@@ -710,3 +716,8 @@ Proof. intros Ho Hk Hf Hr. rewrite (end_rr_cancel e oid o u r Ho Hk Hf Hr). appl
 Theorem cancel_rs_requester_gone u e oid o : nth_error (objs e) oid = Some o -> o_kind o = KRSReq ->
   gone (fst (ep_step u e (LCancel oid))) (o_sid o).
 Proof. intros Ho Hk. rewrite (cancel_rs_requester u e oid o Ho Hk). apply finish_gone. Qed.
+
+(* fragments still in flight for a stream that is gone are not buffered (fix: "fragments of unknown streams") *)
+Theorem gone_fragment_dropped e sid ign co nx md d o u : gone e sid ->
+  recv_frame e (FPayload sid ign true co nx md d) o u = (e, []).
+Proof. intros [Ht Hc]. unfold recv_frame, stray_fragment. rewrite Ht, Hc. reflexivity. Qed.
